@@ -52,10 +52,14 @@ func main() {
 	list := flag.Bool("list", false, "list families")
 	facts := flag.String("facts", "", "check a group of source facts against the committed expectations")
 	updateFacts := flag.Bool("update-facts", false, "with -facts: rewrite the expectations from the current sources")
+	translate := flag.String("translate", "", "regenerate the Lean definitions of key.go's integer loops into this file")
 	genvec := flag.String("genvectors", "", "write frozen format vectors to this file (run against the pinned release)")
 	flag.Parse()
 	if *facts != "" {
 		os.Exit(runFacts(*facts, *updateFacts))
+	}
+	if *translate != "" {
+		os.Exit(runTranslate(*translate))
 	}
 	if *genvec != "" {
 		writeVectors(*genvec, 20260929)
